@@ -675,8 +675,104 @@ fn short(frames: &[F]) -> Vec<String> {
         .collect()
 }
 
+/// A client exception (a method only a client may send, or an unimplemented one) while the
+/// transport is stalled and other threads keep using their channels: the Connection.Close
+/// carrying the hard-error code has to be the last frame ever written, whatever is submitted
+/// while it waits to be flushed.
+fn exception_with_backlog(r: &mut Rng, res: &mut CaseResult) {
+    use crate::world::{Actor, Cmd};
+    let (conn, h) = session::open_default(Reflex::default());
+    let mut conn = match conn {
+        Ok(c) => c,
+        Err(e) => {
+            res.inconclusive(format!("handshake: {}", ek(&e)));
+            return;
+        }
+    };
+    let mut actors = Vec::new();
+    for i in 0..r.usize(1, 3) {
+        match conn.open_channel(None) {
+            Ok(c) => actors.push(Actor::spawn(c, &format!("p{}", i))),
+            Err(e) => {
+                res.inconclusive(format!("open_channel: {}", ek(&e)));
+                return;
+            }
+        }
+    }
+    // the transport accepts a little more and then nothing
+    let take = r.usize(0, 3000);
+    h.with(|st| st.budget = take);
+    for a in &actors {
+        for _ in 0..r.usize(1, 6) {
+            a.send(Cmd::Publish(r.usize(0, 4000)));
+        }
+    }
+    std::thread::sleep(Duration::from_micros(r.range(0, 2000)));
+    // the violation
+    let (frame, code) = if r.bool() { (F::ClientOnly { ch: actors[0].id, which: r.next() as u8 }, 530u16) } else { (F::Unimplemented { ch: actors[0].id, which: r.next() as u8 }, 540u16) };
+    h.inject(frame.encode());
+    // submissions keep coming while the Close waits behind the stall
+    let deadline = std::time::Instant::now() + Duration::from_millis(r.range(2, 12));
+    let mut late = 0u64;
+    while std::time::Instant::now() < deadline {
+        for a in &actors {
+            a.send(if r.bool() { Cmd::Publish(r.usize(0, 2000)) } else { Cmd::Nowait });
+            late += 1;
+        }
+        std::thread::sleep(Duration::from_micros(200));
+    }
+    res.obs("submissions_while_the_close_waits", late);
+    h.grant(usize::MAX);
+    if !h.wait_released(W) {
+        res.violate("violation_not_fatal", format!("{:?} must end the connection with a client exception {}, but the I/O thread is still running", frame, code));
+    }
+    for a in &actors {
+        a.send(Cmd::Stop);
+    }
+    let t = run::spawn("close", move || conn.close());
+    match t.join(W) {
+        J::Done(Err(e)) if ek(&e) == "ClientException" => {}
+        J::Done(other) => res.violate("wrong_error", format!("{:?}: Connection::close() = {}, want ClientException", frame, session::rk(&other))),
+        _ => res.violate("no_progress", "Connection::close did not return".to_string()),
+    }
+    // the last frame on the wire is the Close with the hard-error code
+    let frames = h.frames();
+    let sp_err = h.peek(|st| st.parse_error.clone());
+    if let Some(e) = sp_err {
+        res.violate("malformed_outbound_frame", e);
+    }
+    let pos = frames.iter().position(|f| matches!(f.method(), Some(AMQPClass::Connection(Cn::Close(c))) if c.reply_code == code));
+    match pos {
+        None => res.violate("no_close_with_hard_error", format!("no Connection.Close({}) was written after {:?}; last frames: {:?}", code, frame, frames.iter().rev().take(3).map(|f| f.short()).collect::<Vec<_>>())),
+        Some(p) if p + 1 != frames.len() => res.violate(
+            "frames_after_exception_close",
+            format!("{} frames were written after Connection.Close({}): {:?} ...", frames.len() - p - 1, code, frames[p + 1..].iter().take(4).map(|f| f.short()).collect::<Vec<_>>()),
+        ),
+        _ => {}
+    }
+    for p in run::io_panics(&run::take_panics()) {
+        res.violate("io_thread_panic", format!("{} at {}", p.msg, p.loc));
+    }
+    res.sig = crate::rng::fnv_str(&format!("excb{}{}{}", actors.len(), take, code));
+    res.sample = Some(json!({"scenario": "client exception behind a stalled transport while publishers keep submitting", "hard_error": code, "stall_after_bytes": take}));
+}
+
 pub fn run(rc: &mut RunCtx) {
     let seed = rc.seed;
+    for i in 0..rc.n(48, 1500) {
+        let id = format!("exception-backlog:{}", i);
+        if !rc.mine(&id) {
+            continue;
+        }
+        rc.begin(&id);
+        let mut res = CaseResult::new(id);
+        let mut r = Rng::for_case(seed, 7, 4_000_000 + i);
+        exception_with_backlog(&mut r, &mut res);
+        if i % 16 != 0 && !res.is_violation() {
+            res.sample = None;
+        }
+        rc.end(res);
+    }
     // (1) targeted: each alphabet item alone and after a half-received message
     let mut targeted: Vec<Vec<F>> = Vec::new();
     {
